@@ -1124,7 +1124,20 @@ pub fn run_origin<T>(script: &Script, faults: &ConnFaults, ctx: &RunCtx, f: impl
         ConnectBehaviour::Accept { latency_ns: NS_PER_MS },
         Some(Box::new(move |_info| {
             let script = script.clone();
-            let mut p = HttpPeer::new(Arc::new(move |_r, _c| script.clone()), seen2.clone());
+            // (one fixed resource besides the scripted one: where C03's followed redirects point)
+            let mut p = HttpPeer::new(
+                Arc::new(move |r, _c| {
+                    if r.target == "/c03-next" {
+                        let mut s = Script::default();
+                        s.acts.push(Act::Send(b"HTTP/1.1 200 OK\r\nContent-Length: 2\r\n\r\nok".to_vec()));
+                        s.acts.push(Act::Fin);
+                        s
+                    } else {
+                        script.clone()
+                    }
+                }),
+                seen2.clone(),
+            );
             p.faults = Some(faults.clone());
             Box::new(p)
         })),
